@@ -17,31 +17,47 @@ LEVEL_TEXT = ('Generated fault injection: dropout windows (positions, lengths, s
 RULE = ('A physically consistent trajectory (own closed-form integration of a smooth band-limited body rate <= 0.2 rad/s, 300-700 '
         'samples at 100 Hz, from a PRNG seeded by a Hypothesis-drawn integer) is rendered in each filter\'s own convention '
         '(reference vectors of the shared filter table, exact images, gyroscope = true body rate). A fault schedule of 1-3 '
-        'windows (start, length 1..30, non-empty subset of {acc, mag, gyr} zeroed) is injected. Filters: Madgwick, Mahony, EKF '
-        '(NED/ENU), UKF, AQUA, Fourati, ROLEQ, FKF, Complementary x IMU/MARG, default parameters. Oracle: either the run is refused '
+        'windows (start, length 1..30, or 31..200 when the gyroscope keeps running; non-empty subset of {acc, mag, gyr} zeroed; half of the schedules repeat one sensor set) is injected. Filters: Madgwick, Mahony, EKF '
+        '(NED/ENU), UKF, AQUA, Fourati, ROLEQ, FKF, Complementary x IMU/MARG, default parameters and non-default presets; for Mahony (the filter that estimates one) three cases in four add a constant gyroscope bias up to 0.05 rad/s per axis, given to the filter as b0 or left for it to learn. Oracle: either the run is refused '
         'with ValueError, or all N rows are finite unit quaternions (1e-9) and, from W_f samples after the last window, the '
         'geodesic distance (IMU variants: tilt distance) to the clean run of the same filter stays below rho_f (constants calibrated on the unchanged '
         'tree, DESIGN.md section 3/C13). Non-trivial: a window that starts after sample 20, ends at least W_f before the end and '
         'zeroes a sensor the architecture uses; distinct = case hash.')
-ASSUMPTIONS = ['recovery horizon W_f and tolerance rho_f per filter (and per class: gyroscope zeroed too / correcting sensors only) are calibrated constants (>= 4x margin over the worst observed in 19000 schedules)',
+ASSUMPTIONS = ['recovery horizon W_f and tolerance rho_f per filter (and per class of zeroed sensors: gyroscope too / accelerometer / magnetometer only) are calibrated constants (>= 3x margin over the worst observed in 24000 schedules; Mahony-MARG with a magnetometer-only outage additionally by what the filter knows of the gyroscope bias)',
                'a filter that corrects at a bounded rate (Madgwick: beta rad/s) is given the time that rate needs for the worst frozen-gyro error']
 REQUIRED_LABELS = ['dropout:long_window', 'dropout:gyro_bias=known', 'dropout:gyro_bias=unknown', 'dropout:sensor=acc', 'dropout:sensor=mag', 'dropout:sensor=gyr', 'dropout:windows>=2', 'dropout:params=custom']
 
 DT = 0.01
 # (W_f samples after the last window, rho_f rad) -- calibrated, see DESIGN.md
 RECOVERY = {
-    # key: (W_f, rho_f when a gyroscope sample was zeroed too, rho_f when only correcting sensors were zeroed).  In comments: the worst
-    # distances observed on the unchanged tree over 16 seeds x 1200 schedules (tools/calibrate_c13.py), windows up to 200 samples.
-    'Madgwick-IMU': (300, 2.5e-2, 2.5e-2), 'Madgwick-MARG': (300, 2.5e-2, 2.5e-2),   # limit cycle of the normalised gradient step, scaled with the gain below
-    'Mahony-IMU': (300, 5e-2, 2e-2), 'Mahony-MARG': (300, 7e-2, 1.5e-2),     # 6.5e-3 / 2.8e-3;  1.2e-2 / 2.4e-3 (bias integrator disturbed by a frozen gyro)
-    'EKF-IMU': (300, 5e-2, 5e-2), 'EKF-MARG': (300, 1e-1, 1e-1),             # 6.1e-3 / 1.0e-2;  2.4e-2 / 2.4e-2
-    'UKF-IMU': (300, 5e-2, 5e-2),                                            # 1.8e-3 (an all-zero accelerometer sample is refused)
-    'AQUA-IMU': (300, 2e-2, 1e-7), 'AQUA-MARG': (300, 4e-2, 1e-7),           # 2.4e-3 / 2.2e-10;  9.3e-3 / 1.1e-9
-    'Fourati-MARG': (300, 3e-1, 3e-1),                                       # 5.7e-2 (its correction is proportional to the measured rate)
-    'ROLEQ-MARG': (300, 1e-5, 1e-9),                                         # 5.1e-7 / 1.2e-14
-    'FKF-MARG': (300, 7e-2, 7e-2),                                           # 9.9e-3
-    'Complementary-IMU': (300, 1e-9, 1e-9), 'Complementary-MARG': (300, 1e-9, 1e-9),   # 1e-15 plus gain**W_f (added below)
+    # key: (W_f, tolerance by class of the zeroed sensors: 'gyr' = a gyroscope sample was zeroed too, 'acc' = accelerometer (and maybe
+    # magnetometer) only, 'mag' = magnetometer only).  In comments: the worst distances observed on the unchanged tree over 16 seeds x
+    # 1500 schedules (tools/calibrate_c13.py), windows up to 200 samples; every tolerance keeps >= 3x margin.
+    'Madgwick-IMU': (300, {'gyr': 2.5e-2, 'acc': 2.5e-2}),                    # limit cycle of the normalised gradient step; scaled with the gain below
+    'Madgwick-MARG': (300, {'gyr': 2.5e-2, 'acc': 2.5e-2, 'mag': 2.5e-2}),
+    'Mahony-IMU': (300, {'gyr': 5e-2, 'acc': 5e-2}),                          # 6.4e-3 / 6.7e-3 (a null accelerometer freezes the whole update)
+    'Mahony-MARG': (300, {'gyr': 1e-1, 'acc': 5e-2, 'mag': 3e-2}),            # 2.3e-2 / 1.3e-2 / 5.7e-3; 'mag' depends on the bias class, see rho()
+    'EKF-IMU': (300, {'gyr': 6e-2, 'acc': 6e-2}), 'EKF-MARG': (300, {'gyr': 1e-1, 'acc': 1e-1, 'mag': 1e-1}),   # 1.2e-2 / 1.2e-2;  1.4e-2 / 2.4e-2
+    'UKF-IMU': (300, {'gyr': 5e-2, 'acc': 5e-2}),                             # 1.8e-3 (an all-zero accelerometer sample is refused)
+    'AQUA-IMU': (300, {'gyr': 2e-2, 'acc': 1e-7}),                            # 2.4e-3 / 4.1e-10
+    'AQUA-MARG': (300, {'gyr': 2e-1, 'acc': 1e-7, 'mag': 1e-7}),              # 4.4e-2 / 1.3e-9 / 5.9e-10
+    'Fourati-MARG': (300, {'gyr': 6e-1, 'acc': 6e-1, 'mag': 6e-1}),           # 1.7e-1 (its correction is proportional to the measured rate)
+    'ROLEQ-MARG': (300, {'gyr': 1e-5, 'acc': 1e-9, 'mag': 1e-9}),             # 5.1e-7 / 1.7e-15 / 4.2e-15
+    'FKF-MARG': (300, {'gyr': 1e-1, 'acc': 1e-1, 'mag': 1e-1}),               # 2.2e-2
+    'Complementary-IMU': (300, {'gyr': 1e-9, 'acc': 1e-9}),                   # 1e-15 plus gain**W_f (added below)
+    'Complementary-MARG': (300, {'gyr': 1e-9, 'acc': 1e-9, 'mag': 1e-9}),
 }
+# Mahony-MARG, magnetometer-only outage (the update falls back to the IMU law, the gyroscope keeps propagating), by what the filter
+# knows about the constant gyroscope bias; worst of 300+ schedules per class on the unchanged tree in comments
+MAHONY_MAG = {'none': 3e-2, 'known': 2e-3, 'unknown': 1.5e-1}                 # 5.7e-3 / 2.8e-4 / 2.9e-2
+
+
+def rho(key, sensors, bias_cls):
+    cls = 'gyr' if 'gyr' in sensors else 'acc' if 'acc' in sensors else 'mag'
+    W_f, table = RECOVERY[key]
+    if key == 'Mahony-MARG' and cls == 'mag':
+        return W_f, MAHONY_MAG[bias_cls], cls
+    return W_f, table.get(cls, table['gyr']), cls
 
 
 
@@ -106,10 +122,12 @@ def _case(tier):
                 start = min(start, max(1, n - 300 - length - 1))
             windows.append({'start': start, 'length': length, 'sensors': sensors})
         # constant gyroscope bias (only rendered for the filter that estimates one: Mahony), known to the user (b0) or not
-        b3 = st.lists(gen.fl(-0.05, 0.05), min_size=3, max_size=3)
-        bias = draw(st.one_of(st.none(), b3, b3, b3))
+        bias = draw(st.lists(gen.fl(-0.05, 0.05), min_size=3, max_size=3)) if draw(st.integers(0, 3)) else None
+        if draw(st.booleans()):
+            for w in windows[1:]:
+                w['sensors'] = list(windows[0]['sensors'])       # the same fault recurring
         return {'spec': i, 'preset': draw(st.integers(0, 3)), 'seed': draw(st.integers(0, 2**31-1)), 'n': n, 'windows': windows,
-                'gyr_bias': bias, 'bias_known': draw(st.booleans()),
+                'gyr_bias': bias, 'bias_known': draw(st.integers(0, 2)) > 0,
                 'frame': draw(st.sampled_from(['NED', 'ENU'])), 'dip': draw(gen.fl(-70.0, 70.0)), 'np_seed': draw(st.integers(0, 2**31-1))}
     return build()
 
@@ -131,7 +149,7 @@ def evaluate(case, ctx, calibrate=None):
     if key not in RECOVERY:
         ctx.label('not_a_corrective_filter')
         return
-    W_f, rho_gyr, rho_nogyr = RECOVERY[key]
+    W_f = RECOVERY[key][0]
     frame = case['frame'] if case['frame'] in spec.frames else spec.frames[0]
     dip = float(case['dip'])
     n = int(case['n'])
@@ -159,7 +177,9 @@ def evaluate(case, ctx, calibrate=None):
     ctx.label(f'filter={key}')
     ctx.nt(nontriv)
     seed = int(case['np_seed'])
-    rho_f = rho_gyr if any('gyr' in w['sensors'] for w in case['windows']) else rho_nogyr
+    bias_cls = 'none' if bias is None else 'known' if case.get('bias_known') else 'unknown'
+    W_f, rho_f, sensor_cls = rho(key, {sn for w in case['windows'] for sn in w['sensors'] if uses[sn]}, bias_cls)
+    ctx.label(f'class={sensor_cls}')
     presets = PRESETS[spec.name]
     preset = presets[int(case.get('preset', 0)) % len(presets)]
     if bias is not None and case.get('bias_known'):
@@ -218,7 +238,7 @@ def evaluate(case, ctx, calibrate=None):
         d = np.array([F.attitude_error(spec, faulty[t], clean[t], frame) for t in range(t0, n)])
         worst = float(d.max())
         if calibrate is not None:
-            calibrate.append((key, which, worst, rho_f))
+            calibrate.append((key, sensor_cls + '|bias_' + bias_cls, worst, rho_f))
         ctx.target(worst/rho_f, 'recovery')
         if worst > rho_f:
             ctx.fail(f'{tag}|does_not_return_to_clean_run|{which}',
@@ -237,4 +257,4 @@ def selftest():
     assert oracle.qangle(q, Q[-1]) < 1e-12
 
 
-SUBCHECKS = {'dropout': Sub(_case, lambda c, ctx: evaluate(c, ctx), quick=3000, thorough=60000, budget_quick=90.0)}
+SUBCHECKS = {'dropout': Sub(_case, lambda c, ctx: evaluate(c, ctx), quick=6000, thorough=120000, budget_quick=100.0)}
